@@ -127,6 +127,11 @@ fn scenario(w: &mut World, ctx: &RunCtx, states: &mut Vec<u64>) -> Result<(), Vi
         // password-derived keys: configure by password in one instance and by printed key text in another
         c.use_password = w.ch.chance("configure_by_password", 500);
         c.give_public_key = w.ch.chance("give_public_key", 500);
+        // a password left over next to an explicit private key must not change the identity
+        if w.ch.chance("leftover_password", 150) {
+            c.extra_password = Some("some-other-password".to_string());
+            w.count("c18_private_key_with_leftover_password");
+        }
         let mask = w.ch.choose("trusted_mask", 1 << nkeys);
         c.trusted = (0..nkeys).filter(|k| mask & (1 << k) != 0).collect();
         c.tick_phase_ms = w.ch.choose("tick_phase", 1000) as u64;
@@ -139,6 +144,15 @@ fn scenario(w: &mut World, ctx: &RunCtx, states: &mut Vec<u64>) -> Result<(), Vi
         let st = w.start_node(i);
         guard(w, &st)?;
         w.count("c18_nodes_started");
+        // the node uses exactly the key pair that key generation printed for its configuration
+        let want = w.keys[w.nodes[i].cfg.key].public_bytes;
+        if w.public_key_in_use(i) != Some(want) {
+            return Err(Violation::new(
+                "same-keys",
+                "configured-key-not-the-key-in-use",
+                format!("n{} was configured with the generated key pair #{} ({}{}) but uses public key {:02x?} instead of {:02x?}", i, w.nodes[i].cfg.key, if w.nodes[i].cfg.use_password && w.keys[w.nodes[i].cfg.key].password.is_some() { "by password" } else { "by printed private key" }, if w.nodes[i].cfg.extra_password.is_some() { ", with a leftover password" } else { "" }, w.public_key_in_use(i).map(|k| k[..6].to_vec()), &want[..6]),
+            ));
+        }
     }
     // trust is about key material: two passwords that are equal give one and the same key
     let trusts = |w: &World, i: usize, j: usize| {
@@ -229,6 +243,6 @@ impl Scenario for C18 {
     }
 
     fn expected_probes(&self) -> Vec<&'static str> {
-        vec!["c18_seed_with_leading_zero_bytes", "c18_public_key_with_leading_zero_byte", "c18_password_keys_generated", "c18_trusting_pairs", "c18_restarts"]
+        vec!["c18_seed_with_leading_zero_bytes", "c18_public_key_with_leading_zero_byte", "c18_password_keys_generated", "c18_trusting_pairs", "c18_restarts", "c18_private_key_with_leftover_password"]
     }
 }
